@@ -182,7 +182,9 @@ func unhex(s string) ([]byte, error) {
 	return hex.DecodeString(s)
 }
 
-var durLabels = []string{"", "0", "5", "-5", "1s", "-1s", "1500us", "1h", "abc", "9223372036854775807", "-9223372036854775808", "1.5", "7ms"}
+var durLabels = []string{"", "0", "5", "-5", "1s", "-1s", "1500us", "1h", "abc", "9223372036854775807", "-9223372036854775808", "1.5", "7ms",
+	// spellings an integer parser with another base / syntax would read differently (or accept at all)
+	"01000000000", "010", "08", "0x10", "0b11", "0o17", "1_000", "+5", "-010", " 5", "5 "}
 
 func mutStreams(r *rng.R) []string {
 	fixed := []string{
